@@ -140,6 +140,8 @@ func genCfg(r *vgen.Rand, i int) caseCfg {
 	return c
 }
 
+var stackBuf = make([]byte, 1<<19)
+
 var routerFuncs = []string{
 	"router.(*dataPlane).runProcessor", "router.(*dataPlane).runSlowPathProcessor",
 	"udpip.(*udpConnection).receive", "udpip.(*udpConnection).send",
@@ -151,8 +153,12 @@ var routerFuncs = []string{
 // queue or held at the fake WriteBatch gate, a BFD session between two transmissions). The
 // snapshot of all goroutines is taken with the world stopped.
 func routerIdle() bool {
-	buf := make([]byte, 1<<20)
-	buf = buf[:runtime.Stack(buf, true)]
+	k := runtime.Stack(stackBuf, true)
+	for k == len(stackBuf) {
+		stackBuf = make([]byte, 2*len(stackBuf))
+		k = runtime.Stack(stackBuf, true)
+	}
+	buf := stackBuf[:k]
 	for _, g := range strings.Split(string(buf), "\n\n") {
 		isRouter := false
 		for _, f := range routerFuncs {
@@ -368,16 +374,19 @@ func runCase(cfg caseCfg, r *vgen.Rand) (out caseOut) {
 	// Quiescent: no input left and every router goroutine blocked (see routerIdle). The
 	// processors emit no event between taking a packet from their queue and returning it, so
 	// silence in the log alone proves nothing.
-	quiet := func() bool {
+	quiet := func(expect int) bool {
 		return waitFor(3*time.Second, func() bool {
-			if !inputsEmpty() || !routerIdle() {
+			if !inputsEmpty() {
 				return false
 			}
-			runtime.Gosched()
-			return inputsEmpty() && routerIdle()
+			if expect < 0 || dp.PoolLen() != expect {
+				// buffers are still on their way (or lost): look at the goroutines less often
+				time.Sleep(time.Millisecond)
+			}
+			return routerIdle() && inputsEmpty()
 		})
 	}
-	if !quiet() {
+	if !quiet(n - held) {
 		out.Stats["not_quiescent"] = 1
 	}
 	if dp.PoolLen() != n-held {
@@ -418,7 +427,7 @@ func runCase(cfg caseCfg, r *vgen.Rand) (out caseOut) {
 				out.Stats["retained_armed"] = 1
 			}
 		}
-		if !quiet() {
+		if !quiet(-1) {
 			out.Stats["not_quiescent"] = 1
 		}
 	}
@@ -474,6 +483,7 @@ func runCase(cfg caseCfg, r *vgen.Rand) (out caseOut) {
 			see(p, 1)
 		}
 	}
+	udpip.VerifPoolReleaseProcessors(dp.Underlay())
 	var direct []string
 	out.Events, out.Threads, direct, out.Dropped = tr.Snapshot()
 	out.Direct = append(out.Direct, direct...)
